@@ -1,8 +1,194 @@
-/- PyodaModel.WeekYear — placeholder until the area is modelled. -/
+/-
+  PyodaModel.WeekYear — week-year rules and weekday navigation.
+  Transcribed from pyoda_time/calendars/_simple_week_year_rule.py, _week_year_rules.py and the weekday
+  operations of pyoda_time/_local_date.py / _date_adjusters.py.
+
+  A calendar enters only through its year table: `start y` (day number of the first day of year y),
+  `len y` (days in year y), the year range and the day range.  The driver receives the table entries it
+  needs with every op (the harness reads them from the code), the theorems quantify over all tables.
+-/
 import PyodaModel.Prelude
 
 namespace Pyoda.WeekYear
 
-def handle (_toks : List String) : Option String := none
+structure Cal where
+  start : Int → Int
+  len : Int → Int
+  minYear : Int
+  maxYear : Int
+  minDays : Int
+  maxDays : Int
+
+structure Rule where
+  minDaysInFirstWeek : Int
+  firstDayOfWeek : Int       -- 1 = Monday … 7 = Sunday
+  irregular : Bool
+  deriving DecidableEq, Repr, Inhabited
+
+/-- ISO day of week of a day number, as `CalendarSystem._get_day_of_week` computes it -/
+def dayOfWeek (days : Int) : Int :=
+  if days ≥ -3 then 1 + csharpMod (days + 3) 7 else 7 + csharpMod (days + 4) 7
+
+/-- `__get_week_year_days_since_epoch` -/
+def weekYearStart (r : Rule) (c : Cal) (wy : Int) : Int :=
+  let s := c.start wy
+  let dow := if s ≥ -3 then 1 + (s + 3) % 7 else 7 + (s + 4) % 7
+  let daysIntoWeek := (dow - r.firstDayOfWeek + 7) % 7
+  let startOfWeek := s - daysIntoWeek
+  if 7 - daysIntoWeek ≥ r.minDaysInFirstWeek then startOfWeek else startOfWeek + 7
+
+/-- `__validate_week_year` -/
+def validateWeekYear (r : Rule) (c : Cal) (wy : Int) : R Unit :=
+  if c.minYear < wy ∧ wy < c.maxYear then .ok ()
+  else
+    let minCalDays := weekYearStart r c c.minYear
+    let minWy := if minCalDays > c.minDays then c.minYear - 1 else c.minYear
+    let maxCalDays := weekYearStart r c (c.maxYear + 1)
+    let maxWy := if r.irregular ∨ maxCalDays > c.maxDays then c.maxYear else c.maxYear + 1
+    checkRange wy minWy maxWy
+
+/-- `get_weeks_in_week_year` (without the validation step) -/
+def weeksIn (r : Rule) (c : Cal) (wy : Int) : Int :=
+  let ws := weekYearStart r c wy
+  let extraStart := c.start wy - ws
+  let extraEnd := if r.irregular then 6 else r.minDaysInFirstWeek - 1
+  Int.tdiv (c.len wy + extraStart + extraEnd) 7
+
+def weeksInChecked (r : Rule) (c : Cal) (wy : Int) : R Int := do
+  validateWeekYear r c wy
+  .ok (weeksIn r c wy)
+
+/-- `get_week_year` for a date given by its calendar year and day number -/
+def weekYear (r : Rule) (c : Cal) (calYear days : Int) : Int :=
+  let ws := weekYearStart r c calYear
+  if days < ws then calYear - 1
+  else if r.irregular then calYear
+  else
+    let next := ws + weeksIn r c calYear * 7
+    if days < next then calYear else calYear + 1
+
+/-- `get_week_of_week_year` -/
+def weekOf (r : Rule) (c : Cal) (calYear days : Int) : Int :=
+  let wy := weekYear r c calYear days
+  let ws := weekYearStart r c wy
+  Int.tdiv (days - ws) 7 + 1
+
+/-- `get_local_date` → day number of the result; `yearOf` gives the calendar year of a day number
+    (needed by the irregular-rule check only) -/
+def localDate (r : Rule) (c : Cal) (yearOf : Int → Int) (wy week dow : Int) : R Int := do
+  validateWeekYear r c wy
+  checkRange dow 1 7
+  let maxWeeks := weeksIn r c wy
+  if week < 1 ∨ week > maxWeeks then .error .valueError else
+  let ws := weekYearStart r c wy
+  let daysIntoWeek := (dow - r.firstDayOfWeek + 7) % 7
+  let days := ws + (week - 1) * 7 + daysIntoWeek
+  if days < c.minDays ∨ days > c.maxDays then .error .valueError else
+  let retYear := yearOf days
+  if r.irregular ∧ wy ≠ retYear then
+    if weekYear r c retYear days ≠ wy then .error .valueError else .ok days
+  else .ok days
+
+/-! ## weekday navigation on day numbers (`LocalDate.next/previous`, `DateAdjusters.*_or_same`) -/
+
+/-- difference added by `LocalDate.next(target)` -/
+def nextDiff (days target : Int) : Int :=
+  let d := target - dayOfWeek days
+  if d ≤ 0 then d + 7 else d
+
+def prevDiff (days target : Int) : Int :=
+  let d := target - dayOfWeek days
+  if d ≥ 0 then d - 7 else d
+
+def nextOrSameDiff (days target : Int) : Int := if dayOfWeek days = target then 0 else nextDiff days target
+def prevOrSameDiff (days target : Int) : Int := if dayOfWeek days = target then 0 else prevDiff days target
+
+/-- `LocalDate.from_year_month_week_and_day` on the first-of-month day number and the month length → day of month -/
+def nthWeekdayOfMonth (firstOfMonthDays daysInMonth occurrence dow : Int) : R Int := do
+  checkRange occurrence 1 5
+  checkRange dow 1 7
+  let w1 := dow - dayOfWeek firstOfMonthDays + 1
+  let w1 := if w1 ≤ 0 then w1 + 7 else w1
+  let target := w1 + (occurrence - 1) * 7
+  if target > daysInMonth then .ok (target - 7) else .ok target
+
+/-! ## line protocol -/
+
+/-- table entries `y start len` repeated; anything outside the table is reported (never defaulted) -/
+structure Table where
+  rows : List (Int × Int × Int)
+
+def Table.find (t : Table) (y : Int) : Option (Int × Int) :=
+  (t.rows.find? (fun r => r.1 == y)).map (fun r => (r.2.1, r.2.2))
+
+def Table.covers (t : Table) (ys : List Int) : Bool := ys.all (fun y => (t.find y).isSome)
+
+def Table.cal (t : Table) (minY maxY minD maxD : Int) : Cal :=
+  { start := fun y => match t.find y with | some (s, _) => s | none => 0
+    len := fun y => match t.find y with | some (_, l) => l | none => 0
+    minYear := minY, maxYear := maxY, minDays := minD, maxDays := maxD }
+
+def Table.yearOf (t : Table) (d : Int) : Option Int :=
+  (t.rows.find? (fun r => decide (r.2.1 ≤ d) && decide (d < r.2.1 + r.2.2))).map (·.1)
+
+def parseRows : List Int → Option (List (Int × Int × Int))
+  | [] => some []
+  | y :: s :: l :: rest => do let r ← parseRows rest; some ((y, s, l) :: r)
+  | _ => none
+
+/-- common prefix of the `wy.*` ops: `md fdow irr minY maxY minD maxD nrows (y s l)*` -/
+def parseCtx (toks : List String) : Option (Rule × Table × Cal × List Int) := do
+  let ints ← parseInts? toks
+  match ints with
+  | md :: fd :: irr :: minY :: maxY :: minD :: maxD :: n :: rest =>
+    let k := n.toNat * 3
+    if rest.length < k then none else
+    let rows ← parseRows (rest.take k)
+    let t : Table := ⟨rows⟩
+    some (⟨md, fd, irr ≠ 0⟩, t, t.cal minY maxY minD maxD, rest.drop k)
+  | _ => none
+
+def needYears (_r : Rule) (c : Cal) (ys : List Int) : List Int :=
+  ys ++ (if ys.all (fun y => decide (c.minYear < y) && decide (y < c.maxYear)) then [] else [c.minYear, c.maxYear + 1])
+
+def handle (toks : List String) : Option String :=
+  match toks with
+  | "wy.of" :: rest => do
+    -- … calYear days → weekYear week dayOfWeek
+    let (r, t, c, args) ← parseCtx rest
+    match args with
+    | [cy, d] =>
+      if !(t.covers [cy - 1, cy, cy + 1]) then none else
+      let wy := weekYear r c cy d
+      if !(t.covers [wy]) then none else
+      some (showInts [wy, weekOf r c cy d, dayOfWeek d])
+    | _ => none
+  | "wy.weeks" :: rest => do
+    let (r, t, c, args) ← parseCtx rest
+    match args with
+    | [wy] =>
+      if !(t.covers (needYears r c [wy])) then none else
+      some (showR toString (weeksInChecked r c wy))
+    | _ => none
+  | "wy.date" :: rest => do
+    let (r, t, c, args) ← parseCtx rest
+    match args with
+    | [wy, w, dow] =>
+      if !(t.covers (needYears r c [wy])) then none else
+      let yo := fun d => match t.yearOf d with | some y => y | none => wy
+      match localDate r c yo wy w dow with
+      | .ok d => if (t.yearOf d).isNone then some "!dom" else some (toString d)
+      | .error e => some ("!" ++ e.name)
+    | _ => none
+  | ["wd.nav", d, target] => do
+    let d ← parseInt? d; let tg ← parseInt? target
+    if tg < 1 ∨ tg > 7 then some "!valueError" else
+    some (showInts [dayOfWeek d, nextDiff d tg, prevDiff d tg, nextOrSameDiff d tg, prevOrSameDiff d tg])
+  | ["wd.nth", f, dim, occ, dow] => do
+    let l ← parseInts? [f, dim, occ, dow]
+    match l with
+    | [f, dim, occ, dow] => some (showR toString (nthWeekdayOfMonth f dim occ dow))
+    | _ => none
+  | _ => none
 
 end Pyoda.WeekYear
